@@ -11,7 +11,7 @@ import subprocess
 import sys
 import shutil
 
-ENV = dict(os.environ, CARGO_NET_OFFLINE="true")
+ENV = dict(os.environ, CARGO_NET_OFFLINE="true", RUSTFLAGS="--cfg ancwrd1_ipp_rs_verif --check-cfg cfg(ancwrd1_ipp_rs_verif)")
 
 
 def sh(cmd, cwd=None, timeout=3600):
